@@ -28,6 +28,9 @@ from . import session
 from . import C14 as base
 
 LEVEL = "other"
+IMPORTS = [
+    ("C08", ("C08.classify",), "`-h` / `--help` among the options before `--` is decided on ArgsIter's classification"),
+]
 
 
 def run(ctx, res):
